@@ -21,7 +21,8 @@ MACROS = {
     # match on many escapes take exponential time
     'unicode': r'\\(?:[0-9A-Fa-f]{6}|[0-9A-Fa-f]{1,5}(?![0-9A-Fa-f]))(?:{nl}|{s})?',
     # 'escape': r'{unicode}|\\[ -~\200-\777]',
-    'escape': r'{unicode}|\\[^\n\r\f0-9a-f]',
+    # (upper case hex digits start a unicode escape, too)
+    'escape': r'{unicode}|\\[^\n\r\f0-9a-fA-F]',
     'nmstart': r'[_a-zA-Z]|{nonascii}|{escape}',
     'nmchar': r'[-_a-zA-Z0-9]|{nonascii}|{escape}',
     'string1': r'"([^\n\r\f\\"]|\\{nl}|{escape})*"',
